@@ -24,6 +24,7 @@ int main(void) {
 	((struct sockaddr_un*)ss)->sun_path[0] = '/';
 	e = sa_addr_to_str(ss, out, sizeof(out), &n); /* ASan: heap-buffer-overflow (read) in strlen */
 	printf("e = %d, n = %zu (sun_path holds 108 bytes)\n", e, n);
+	free(ss); /* (added when replaying on the repaired tree: LeakSanitizer otherwise fails the run for the demo's own buffer) */
 	if (108 != n) {
 		printf("FAIL: text has %zu characters\n", n);
 		return (1);
